@@ -9434,7 +9434,7 @@ tsk_treeseq_pair_coalescence_stat(const tsk_treeseq_t *self, tsk_size_t num_samp
     if (nodes_parent == NULL || nodes_sample == NULL || sample_count == NULL
         || coalescing_pairs == NULL || bin_weight == NULL || bin_values == NULL
         || outside == NULL || pair_count == NULL || visited == NULL
-        || total_pair == NULL) {
+        || total_pair == NULL || coalescence_time == NULL) {
         ret = tsk_trace_error(TSK_ERR_NO_MEMORY);
         goto out;
     }
